@@ -698,7 +698,17 @@ def run_doc(ast, secnumdepth=None):
     def setup(doc, tex):
         if secnumdepth is not None:
             doc.config['document']['sec-num-depth'] = secnumdepth
-    doc, tex = texrun.parse(render_doc(ast), setup)
+    # The document class must have loaded completely: PackageLoader.load swallows every Exception raised while a class is
+    # loading (log.error only), so a transient failure there (asynchronous timeout, memory) leaves a half-loaded class and
+    # wrong numbers without any visible error.  That is a fault of the run, not an observation: parse again.
+    retries = 0
+    while True:
+        doc, tex = texrun.parse(render_doc(ast), setup)
+        if class_loaded(doc):
+            break
+        retries += 1
+        if retries > 2:
+            return ['env', 'the article class did not load completely in 3 attempts']
     objs = []
     refs = []
 
@@ -732,7 +742,16 @@ def run_doc(ast, secnumdepth=None):
     for e in obs[0]:
         for kv in e[1]:
             kv[0] = 0
-    return obs
+    return obs + [[retries]]
+
+
+def class_loaded(doc):
+    ctx = doc.context
+    try:
+        return ('article' in ctx.packages and getattr(ctx['thesection'], 'format', None) == '${section}' and
+                all(dict.__contains__(ctx.counters, c) for c in ('section', 'subsection', 'paragraph', 'equation', 'figure', 'table', 'thm', 'enumi')))
+    except Exception:
+        return False
 
 
 def run_impl(case):
@@ -880,6 +899,10 @@ def judge(case, io, mo):
                     what='the implementation raised / hung: %s' % (io[:3],))
     verdicts = []
     for i, (o, m) in enumerate(zip(io, mo)):
+        if o[:1] == ['env']:
+            verdicts.append(dict(violation=False, key='C09:environment', what='variant %d: %s' % (i, o[1])))
+            continue
+        o = o[:6]
         if o[:1] == ['shape']:
             verdicts.append(dict(violation=False, key='C09:harness-shape',
                                  what='variant %d: the parsed tree has %d objects / %d references, the generator expected %d / %d' % (i, o[1], o[3], o[2], o[4])))
@@ -905,6 +928,7 @@ def judge(case, io, mo):
     if case['kind'] == 'doc' and len(io) > 1 and not verdicts and all(m[6][0] for m in mo):
         maps = []
         for o in io:
+            o = o[:6]
             maps.append({(r, kv[0]): (kv[1][:2] if kv[1][0] == 0 else [1, kv[1][2]]) for r, ent in o[0] for kv in ent})
         for i in range(1, len(maps)):
             if maps[i] != maps[0]:
@@ -949,7 +973,9 @@ def tags(case, io):
                 else:
                     t.append('ref:backward')
         t.append('events=%s' % ('<=5' if len(h) <= 5 else '<=20' if len(h) <= 20 else '<=60' if len(h) <= 60 else '>60'))
-    if isinstance(io, list) and io and isinstance(io[0], list) and len(io[0]) == 6:
+    if isinstance(io, list) and any(isinstance(o, list) and len(o) == 7 and o[6] != [0] for o in io):
+        t.append('env:class-load-retried')
+    if isinstance(io, list) and io and isinstance(io[0], list) and len(io[0]) in (6, 7):
         if any(kv[1][0] == 1 for r, ent in io[0][0] for kv in ent):
             t.append('final:placeholder')
         if io[0][2]:
